@@ -499,6 +499,18 @@ def reedfrost (j : Json) : Except String Json := do
   let nodes := List.range n
   pure (Json.mkObj [("ok", Json.bool true),
     ("prob", jArr (fun v => jRat (infProb p (infNbrs nodes (listFn adj []) inf v))) nodes)])
+
+/-- the joint law of one generation as the model's sequential-draw program computes it (`ReedFrost.stepDist`):
+raw list of (new_infecteds in infection order, mass) -/
+def reedfrostJoint (j : Json) : Except String Json := do
+  let adj ← getList (getList getNat) (← fld j "adj")
+  let inf ← getList getNat (← fld j "inf")
+  let sus ← getList getBool (← fld j "sus")
+  let p ← getRat (← fld j "p")
+  let redraw ← getBool (← fld j "redraw")
+  let d := ReedFrost.stepDist p (listFn adj []) inf (fun v => sus.getD v false) redraw
+  pure (Json.mkObj [("ok", Json.bool true),
+    ("dist", jArr (fun e => Json.arr #[jArr jNat e.1, jRat e.2]) d)])
 end DrvD
 
 /-! ### event-driven SIS with arbitrary delays (C13) -/
@@ -806,6 +818,7 @@ def dispatch (j : Json) : Except String Json := do
   | "fastsis" => DrvFS.run j
   | "simple_rates" => DrvSC.rates j
   | "reedfrost" => DrvD.reedfrost j
+  | "reedfrostJoint" => DrvD.reedfrostJoint j
   | _ => .error s!"unknown op {op}"
 
 def handle (line : String) : String :=
